@@ -363,9 +363,10 @@ Record dbatch := mk_db { bx : leaf; by_ : leaf }.
 Record leafprog := mk_lp {
   lp_int : bool;                  (* int32 leaf (uses sum(batch.y)) or float32 leaf (uses sum(batch.x)) *)
   lp_shape : list Z;              (* array shape of the leaf (the model computes on the flattened leaf) *)
+  lp_dtype : Z;                   (* 0 float32, 1 int32, 3 float16, 4 bfloat16, 5 int8, 6 uint8, 7 bool *)
   lp_init : Z;  lp_ia : Q; lp_ib : Q;   (* 0: shared[k]   1: cin[k]   2: ia*shared[k] + ib*cin[k] *)
   lp_step : Z;  lp_a : Q; lp_b : Q; lp_d : Q; lp_e : Q; lp_inv : Z;
-                                  (* 0: a*s + (b*g + d [+ e*(1/bsum) | + e*(bsum/bsum)])  1: batch.x  2: s *)
+                                  (* 0: a*s + (b*g + d [+ e*(1/bsum) | + e*(bsum/bsum)])  1: batch.x  2: s  3: s + d  4: not s (bool: 1 - s) *)
   lp_final : Z; lp_fa : Q; lp_fb : Q    (* 0: s   1: fa*s + fb*shared[k]   2: shared[k] *)
 }.
 Record prog := mk_prog {
@@ -399,6 +400,8 @@ Definition d_step_state (p : prog) (st : tree) (b : dbatch) : tree :=
     let s := nth_leaf st k in
     if lp_step lp =? 1 then bx b
     else if lp_step lp =? 2 then s
+    else if lp_step lp =? 3 then shift (q (lp_d lp)) s
+    else if lp_step lp =? 4 then map (fun v => NanQ.sub NanQ.one v) s
     else
       let g := if lp_int lp then bn else bsum in
       let c := NanQ.add (NanQ.add (NanQ.mul (q (lp_b lp)) g) (q (lp_d lp))) (inv_term (lp_inv lp) (lp_e lp) bsum) in
@@ -439,7 +442,7 @@ Definition d_pmap (p : prog) (wsr : bool) (D : Z) (sh : tree) (cl : list dclient
 
 (* ---- comparison: as MULTISETS of yielded triples (yield order is not part of the
    property; duplicate client ids give one triple per input entry).  An observed leaf
-   carries its dtype (0 float32, 1 int32, 2 other) and array shape. *)
+   carries its dtype code (see lp_dtype; 2 = any other dtype) and array shape. *)
 Definition oleaf : Type := Z * list Z * leaf.
 Definition oresult : Type := option Z * list oleaf * list (list oleaf).
 
@@ -448,7 +451,7 @@ Definition oid_eqb (a b : option Z) : bool :=
   match a, b with Some x, Some y => x =? y | None, None => true | _, _ => false end.
 
 (* dtype / shape the program gives each output leaf and each step-result leaf *)
-Definition leaf_meta (lp : leafprog) : Z * list Z := (if lp_int lp then 1 else 0, lp_shape lp).
+Definition leaf_meta (lp : leafprog) : Z * list Z := (lp_dtype lp, lp_shape lp).
 Definition out_meta (p : prog) : list (Z * list Z) := map leaf_meta (pr_leaves p).
 Definition res_meta (p : prog) : list (Z * list Z) :=
   [(0, []); match nth_error (pr_leaves p) (pr_rleaf p) with Some lp => leaf_meta lp | None => (2, []) end].
